@@ -408,6 +408,10 @@ func (p *ProjectRunner) RestartProcess(name string) error {
 			return err
 		}
 		verifYieldR("restart.afterStop")
+		// the new instance shares the state of the old one: it must not be created
+		// before the old command is really gone (a slow child left it Terminating and
+		// the restart silently launched nothing)
+		proc.waitForCompletion()
 		time.Sleep(proc.getBackoff())
 		verifYieldR("restart.afterSleep")
 	}
